@@ -9,13 +9,6 @@ import ApiFu.C06.Complete
 
 namespace ApiFu.C06
 
-/-- A production is balanced: on every normal return the recursion counter is back at its entry value. -/
-def Balanced {α : Type} (x : P α) : Prop :=
-  ∀ (env : Env) (st st' : St) (a : α), env.leak = false → x env st = .ok a st' → st'.recursion = st.recursion
-
-theorem Sound.balanced {α : Type} {x : P α} {stk : α → List STok} {wf : α → Bool} (h : Sound x stk wf) :
-    Balanced x := fun _ _ _ _ hl hx => (h.ok hl hx).1
-
 /-- **rec_balanced** — every production of the parser returns with `p.recursion` at its entry value, on
     every return path (this is what makes "maximum recursion depth exceeded" a statement about the
     depth of the production call stack). It holds for the code after the F-12a fix; `rec_leaks_before_fix`
@@ -169,43 +162,6 @@ example : (ParseDocument 1000
       eofPos := ⟨1, 4⟩ }).recoveredErrs = some [{ msg := "expected name", pos := ⟨1, 4⟩ }] := by
   decide +kernel
 
-/-- The recorded position of the first token of a spec token list. -/
-def firstPos (ss : List STok) : Option Pos := ss.head?.bind (·.pos)
-
-theorem firstPos_append_of_some {a b : List STok} {p : Pos} (h : firstPos a = some p) : firstPos (a ++ b) = some p := by
-  cases a with
-  | nil => simp [firstPos] at h
-  | cons x a => simpa [firstPos] using h
-
-theorem Name.firstPos (n : Name) : firstPos n.stoks = some n.position := rfl
-theorem Variable.firstPos (v : Variable) : firstPos v.stoks = some v.position := rfl
-
-theorem Value.firstPos (v : Value) : firstPos v.stoks = some v.position := by
-  cases v <;> rfl
-
-theorem TypeExpr.firstPos (t : TypeExpr) : firstPos t.stoks = some t.position := by
-  induction t with
-  | named n => rfl
-  | list t o c _ => rfl
-  | nonNull t ih => exact firstPos_append_of_some ih
-
-theorem Selection.firstPos (s : Selection) : firstPos s.stoks = some s.position := by
-  cases s with
-  | field al n args dirs sel => cases al <;> rfl
-  | spread e n dirs => rfl
-  | inline e tc dirs sel => rfl
-
-theorem SelSet.firstPos (s : SelSet) : firstPos s.stoks = some s.position := by
-  cases s; rfl
-
-theorem Definition.firstPos (d : Definition) : firstPos d.stoks = some d.position := by
-  cases d with
-  | op t name vars dirs sel =>
-    cases t with
-    | none => exact SelSet.firstPos sel
-    | some t => rfl
-  | frag p n tc dirs sel => rfl
-
 /-- **position_first_token** — for every node type of ast.go, `Position()` is the recorded position of
     the first token of the node's own token sequence (`stoks` is compositional: a sub-node's tokens are a
     contiguous segment of its parent's). Together with `parse_sound` (`Renders inp.toks d.stoks`,
@@ -271,23 +227,6 @@ theorem parse_fuel_sufficient (maxRec : Nat) (inp : Input) (leak : Bool) :
     | fail es => simp [Res.outcome]
     | oof => rw [hr] at h; exact h.elim
 
-
-theorem clean_of_scannerErrs {inp : Input} (h : scannerErrs inp = []) (maxRec : Nat) (leak : Bool) :
-    Clean (inp.env maxRec leak) inp.toks := by
-  unfold scannerErrs at h
-  have h1 := (List.append_eq_nil_iff.mp h).1
-  have h2 := (List.append_eq_nil_iff.mp h).2
-  refine ⟨?_, h2⟩
-  intro t ht
-  have := List.flatMap_eq_nil_iff.mp h1 t ht
-  exact this
-
-theorem init_errors_clean {inp : Input} (h : scannerErrs inp = []) : inp.init.errors = [] := by
-  have hc := clean_of_scannerErrs h 0 false
-  unfold Input.init
-  cases hts : inp.toks with
-  | nil => exact hc.2
-  | cons t ts => exact hc.1 t (by simp [hts])
 
 /-- The outcome of `ParseDocument` on a rendering of a well-formed tree: the tree itself, or the depth
     error, decided by the production depth alone. -/
